@@ -10,6 +10,7 @@ new axis, or concatenating them along an existing one, with the given keys."
 Oracle (differential): the same index / assignment / join on the fully loaded objects.  Runs on the netCDF4
 stand-in (vlib/fake_netcdf4), see C19.
 """
+import itertools
 import collections
 import copy as _copy
 import os
@@ -245,6 +246,13 @@ def enumerate_cases(tier):
     for lidx in ([{"k": "slice", "v": [30, 10, -2]}, {"k": "full"}], [{"k": "slice", "v": [None, None, -2]}, {"k": "full"}], [{"k": "full"}, {"k": "slice", "v": [4.5, 0.5, -2]}],
                  [{"k": "full"}, {"k": "slice", "v": [3.5, None, -3]}], [{"k": "slice", "v": [40, 20, 2]}, {"k": "slice", "v": [None, 1.5, -2]}]):
         yield "ondisk-slice-grid", {"mode": "read", "file": fs2, "var": 0, "lidx": lidx, "pidx": [{"k": "full"}, {"k": "full"}], "tol": None, "keepdims": False, "by": "label"}
+    # label slices on axes stored in every order (sorted, reversed, shuffled): the bounds are located exactly, as in memory
+    for perm in itertools.permutations([10, 20, 30, 40]):
+        fs3 = {"vars": [["v0", {"dims": ["x", "y"], "labels": [[0.5, 1.5], list(perm)], "vk": "f", "base": 0, "attrs": {}}]], "attrs": {}}
+        for i0 in range(4):
+            for i1 in range(i0 + 1, 4):
+                yield "label-slices-on-shuffled-ondisk-axes", {"mode": "read", "file": fs3, "var": 0, "lidx": [{"k": "full"}, {"k": "slice", "v": [perm[i0], perm[i1], None]}],
+                                                               "pidx": [{"k": "full"}, {"k": "full"}], "tol": None, "keepdims": False, "by": "label"}
     # several variables created through ONE writable handle (h[name] = array): what one assignment needed (e.g. the fill value taken
     # from the CF attribute `missing_value` of the first array) must not leak into the next: each later variable reads back as assigned
     for first_missing in (None, -99, 0):
